@@ -29,7 +29,7 @@ CORR = ["Corr/FsCorr.v"]
 
 # ------------------------------------------------------------------ building
 def build_case(run, shoot, mod, idx, rng, cmd=None, force_mode=None, force_invoke=None, expect_fail=None,
-               traced=True, fixed=False, force_kinds=(), supfix=False):
+               traced=True, fixed=False, force_kinds=(), supfix=False, obstacle=None):
     """create the directory state of one case and run shoot on it under strace.
     returns the case dict (JSON-able except for bytes, which are latin-1 strings)"""
     cmd = cmd or fsgen.CMDS[idx % 4]
@@ -70,6 +70,14 @@ def build_case(run, shoot, mod, idx, rng, cmd=None, force_mode=None, force_invok
             inv.genfile_src = [f for f in sorted(p.files) if any(l.endswith(line) for l in p.genlines[f])][0]
     files = fsgen.render_pkg(p)
     l2.write_files(root, files)
+    if final.twin_dir() is not None:
+        # the working directory is itself a loadable package holding the same types
+        twin = {}
+        for rel, txt in files.items():
+            if rel.startswith("p/"):
+                twin[str(Path(final.twin_dir()) / rel[2:])] = txt
+        l2.write_files(root, twin)
+        files = dict(files, **twin)
     hist_log = []
     for inv in hist:
         r = l2.run_shoot(shoot, inv.cwd(root), inv.args(root), timeout=60)
@@ -85,6 +93,10 @@ def build_case(run, shoot, mod, idx, rng, cmd=None, force_mode=None, force_invok
             pass
     fail = None
     args = final.args(root)
+    obst = {}
+    if obstacle and not expect_fail:
+        g0, t0 = final.selection()[0]
+        obst = fsgen.plant_obstacle(root, fsgen.out_name(cmd, g0, t0), obstacle, "%s%d" % (obstacle.replace("_", "").capitalize(), idx))
     if expect_fail:
         fail = expect_fail
         if fail == "missing_type":
@@ -113,9 +125,10 @@ def build_case(run, shoot, mod, idx, rng, cmd=None, force_mode=None, force_invok
         r0 = l2.run_shoot(shoot, final.cwd(root), args, timeout=40)
         res = {"rc": r0["rc"], "out": r0["out"], "err": r0["err"], "timed_out": r0["timed_out"]}
     text = trace.read_text(errors="replace") if trace.exists() else ""
-    ops, outside = fsgen.project(text, root, root / "p", final.cwd(root))
+    # every mutating call below the module directory that is not in the package directory counts as "outside"
+    ops, outside = fsgen.project(text, mod, root / "p", final.cwd(root))
     after = fsgen.snapshot(root)
-    kept = {ino: Path(k).read_bytes() for ino, k in keep.items()}
+    kept = {ino: fsgen.read_kept(k) for ino, k in keep.items()}
     try:
         trace.unlink()
     except OSError:
@@ -126,7 +139,7 @@ def build_case(run, shoot, mod, idx, rng, cmd=None, force_mode=None, force_invok
         "cwd": str(final.cwd(root).relative_to(root)) or ".", "root_hint": str(root),
         "clean": final.clean_active() and not fail, "dirdot": final.dirdot(), "fixed": fixed, "supfix": supfix,
         "sel": [] if fail else final.selection(), "expect_ok": not fail, "fail": fail,
-        "sources": files, "history": hist_log, "planted": planted, "links": links,
+        "sources": files, "history": hist_log, "planted": planted, "links": links, "obstacle": obst,
         "before": before, "after": after, "kept": kept, "ops": ops, "outside_trace": outside,
         "rc": res["rc"], "stderr": res["err"][-1500:], "timed_out": res["timed_out"],
     }
@@ -195,7 +208,7 @@ def fault_case(run, shoot, mod, idx, rng, kind, cmd, fixed=False, supfix=False):
         if kind == 1:
             kept = {ino: b for rel, ino, b in before + after if not rel.endswith("/")}
         else:
-            kept = {ino: Path(k).read_bytes() for ino, k in keep.items()}
+            kept = {ino: fsgen.read_kept(k) for ino, k in keep.items()}
         if trace.exists():
             trace.unlink()
         shutil.rmtree(mod / ("keepf_%d" % idx), ignore_errors=True)
@@ -343,6 +356,7 @@ def summary(case):
     return {
         "cmd": "shoot " + " ".join(case["args"]), "cwd": case["cwd"], "mode": case["mode"], "rc": case["rc"],
         "history": case["history"], "planted": case["planted"], "links": case["links"],
+        "entry_at_output_name": case.get("obstacle") or None,
         "before": sorted(n for n, _, _ in bf), "after": sorted(n for n, _, _ in af),
         "trace": [[x.decode("latin-1")[:60] if isinstance(x, bytes) else x for x in o] for o in case["ops"]],
     }
@@ -554,7 +568,7 @@ def kill_case(run, shoot, mod, idx, rng, traced, fixed=False, supfix=False):
         proc.wait()
     time.sleep(0.01)
     after = fsgen.snapshot(twin)
-    kept = {ino: Path(k).read_bytes() for ino, k in keep.items()}
+    kept = {ino: fsgen.read_kept(k) for ino, k in keep.items()}
     ops = []
     if traced and trace.exists():
         ops, _ = fsgen.project(trace.read_text(errors="replace"), twin, pkgdir, final.cwd(twin))
@@ -800,6 +814,18 @@ def case_plan(run, fixed=False):
             plan.append((ci, run.rng.choice(["star", "types"]), run.rng.choice(["pkg", "parent"]), fail, ()))
     plan.append((0, "types", "pkg", "format_error", ()))
     plan.append((0, "getset_multi", "pkg", None, ("old_temp",)))
+    # flags after [dir], from a working directory that is itself a package with the same types
+    tmodes = ["types", "star", "filesep", "starsep", "file", "star_space" if fixed else "star"]
+    for ci in range(4):
+        for j in range(2 if run.thorough() else 1):
+            plan.append((ci, tmodes[(ci + run.seed + 3 * j) % len(tmodes)],
+                         fsgen.TRAIL_INVOKE[(ci + run.seed + j) % 2], None, (), None))
+    # the name of an output pre-exists as a symbolic link (inside / outside / dangling) or as a second name of a
+    # hand-written file
+    for k, ob in enumerate(fsgen.OBSTACLES):
+        for j in range(4 if run.thorough() else 1):
+            plan.append(((k + run.seed + j) % 4, ["types", "star", "file", "filesep"][(k + j) % 4],
+                         ["pkg", "parent", "abs"][(k + j) % 3], None, (), ob))
     extra = 400 if run.thorough() else 2
     for _ in range(extra):
         plan.append((run.rng.randrange(4), None, None, None, ()))
@@ -836,18 +862,19 @@ def main(run):
     retried = []
 
     def one(i):
-        ci, mode, invoke, fail, fkinds = plan[i]
+        ci, mode, invoke, fail, fkinds = plan[i][:5]
+        ob = plan[i][5] if len(plan[i]) > 5 else None
         for attempt in range(3):
             # a case is a function of its seed: a traced run that does not finish in time (seen once in
             # ~1000 runs on a heavily loaded machine) is rebuilt from scratch and repeated
             c = build_case(run, shoot, mod, i, random.Random(seeds[i]), cmd=fsgen.CMDS[ci], force_mode=mode,
-                           force_invoke=invoke, expect_fail=fail, fixed=fixed, force_kinds=fkinds, supfix=supfix)
+                           force_invoke=invoke, expect_fail=fail, fixed=fixed, force_kinds=fkinds, supfix=supfix, obstacle=ob)
             if not c["timed_out"]:
                 return c
             retried.append(i)
         # three timeouts under strace: does shoot itself terminate on this input?
         c2 = build_case(run, shoot, mod, i, random.Random(seeds[i]), cmd=fsgen.CMDS[ci], force_mode=mode,
-                        force_invoke=invoke, expect_fail=fail, traced=False, fixed=fixed, force_kinds=fkinds, supfix=supfix)
+                        force_invoke=invoke, expect_fail=fail, traced=False, fixed=fixed, force_kinds=fkinds, supfix=supfix, obstacle=ob)
         if c2["timed_out"]:
             c2["nonterminating"] = True
             return c2
@@ -1024,6 +1051,8 @@ def main(run):
         "cases_with_replaced_outputs": count(lambda c: any(o[0] == "Rename" and o[2] in {n for n, _, _ in pkg_files(c["before"])} for o in c["ops"])),
         "cases_with_victims": count(lambda c: any(o[0] == "Unlink" for o in c["ops"])),
         "cases_with_hard_links": count(lambda c: bool(c["links"])),
+        "cases_with_flags_after_dir_from_a_twin_package": count(lambda c: c["invoke"] in fsgen.TRAIL_INVOKE),
+        "entries_at_output_names": {ob: count(lambda c, ob=ob: ob in (c.get("obstacle") or {}).values()) for ob in fsgen.OBSTACLES},
         "cases_rejected_before_writing": count(lambda c: not c["expect_ok"]),
         "traced_runs_repeated_after_timeout": len(retried),
         "multi_chunk_writes": count(lambda c: sum(1 for o in c["ops"] if o[0] == "Write") >
@@ -1112,7 +1141,7 @@ def replay(run, path):
     ops, outside = fsgen.project(trace.read_text(errors="replace"), root, root / "p", root / c["cwd"])
     case = dict(c)
     case.update({"before": before, "after": fsgen.snapshot(root),
-                 "kept": {ino: Path(k).read_bytes() for ino, k in keep.items()},
+                 "kept": {ino: fsgen.read_kept(k) for ino, k in keep.items()},
                  "ops": ops, "outside_trace": outside, "rc": res["rc"], "sel": [tuple(x) for x in c["sel"]]})
     rendered = coq_case(case)
     m = coq_verdicts(run, "c17replay", [rendered])
